@@ -400,7 +400,7 @@ def run(ctx):
                     if k_.name == "minijinja::value::Value::is_true" and param_side(fb, k_.args[0], 2, 3) == "L":
                         return [(st_, ("B", "1" if truth else "0"))]
                     return None
-                wr = typestate.explore(prog, fb, 0, on_call, env0={1: ("V", frozenset([v]))})
+                wr = typestate.explore(prog, fb, 0, on_call, env0={1: ("V", frozenset([v]))}, enum_limit=24)
                 sides = set()
                 for c_ in fb.calls():
                     if c_.name.endswith("::clone") and c_.bb in wr.visited and c_.bb in reg:
